@@ -606,7 +606,13 @@ Record obs := Obs {
 Inductive cop :=
 | CAdd (local : bool) (idx : list N)
 | CSetGasPrice (price : N)
-| CHead (st : chainst) (discarded included : list N).
+| CHead (st : chainst) (discarded included : list N)
+(* correspondence-only (candidate linearisations of concurrent additions): AddRemotes/AddLocals
+   return before the promotion run they request; the run may come after further additions, and
+   a run only promotes the accounts whose request it has taken. *)
+| CAddNoRun (local : bool) (idx : list N)     (* addTxs without the run: the dirty accounts accumulate *)
+| CRunOn (accts : list N)                     (* a run promoting those of the accumulated dirty accounts listed *)
+| CRunAny.                                    (* a run promoting SOME subset of them (every subset is tried) *)
 
 Definition dummy_tx : tx := T 0 0 0 0 0.
 Definition tx_at (tbl : list tx) (i : N) : tx := nth (N.to_nat i) tbl dummy_tx.
@@ -622,6 +628,7 @@ Definition to_op (tbl : list tx) (o : cop) : op :=
   | CAdd l idx => OAdd l (map (tx_at tbl) idx)
   | CSetGasPrice g => OSetGasPrice g
   | CHead st d i => OHead (Reset st (map (tx_at tbl) d) (map (tx_at tbl) i))
+  | CAddNoRun _ _ | CRunOn _ | CRunAny => OTick   (* not history steps: handled by cstep_exec / check_steps_d *)
   end.
 
 Fixpoint list_eqb (a b : list N) : bool :=
@@ -681,15 +688,39 @@ Definition lobs := (bool * txl * txl * txl * N * N)%type.   (* ok, out1, out2, c
 Definition lcase := (N * bool * N * list (lop * lobs))%type.
 Definition case := (pcase + lcase)%type.
 
-Fixpoint check_steps (c : cfg) (tbl : list tx) (naccts : N) (p : pool) (h : list cstep) : bool :=
+(* one checked step; [dirty] = accounts whose promotion has been requested but not run yet
+   (only non-empty inside candidate linearisations using CAddNoRun / CRunOn) *)
+Definition cstep_exec (c : cfg) (tbl : list tx) (p : pool) (dirty : list N) (o : cop) : pool * list verdict * list N :=
+  match o with
+  | CAddNoRun l idx =>
+      let '(p1, vs, d) := add_txs c (map (tx_at tbl) idx) l p in (p1, vs, d ++ dirty)
+  | CRunOn accts =>
+      (run c None (filter (fun a => mem_n a accts) dirty) [] p, [], filter (fun a => negb (mem_n a accts)) dirty)
+  | _ => let '(p', vs') := step c p (to_op tbl o) [] in (p', vs', dirty)
+  end.
+
+Fixpoint powerset (l : list N) : list (list N) :=
+  match l with
+  | [] => [[]]
+  | x :: r => let ps := powerset r in ps ++ map (cons x) ps
+  end.
+
+Fixpoint check_steps_d (c : cfg) (tbl : list tx) (naccts : N) (p : pool) (dirty : list N) (h : list cstep) : bool :=
   match h with
   | [] => negb (p_oos p)
+  | (CRunAny, _, _) :: r =>
+      existsb (fun accts =>
+                 let '(p', _, dirty') := cstep_exec c tbl p dirty (CRunOn accts) in
+                 check_steps_d c tbl naccts p' dirty' r)
+              (powerset (seqN 0 (N.to_nat naccts)))
   | (o, vs, ob) :: r =>
-      let '(p', vs') := step c p (to_op tbl o) [] in
+      let '(p', vs', dirty') := cstep_exec c tbl p dirty o in
       match vs with Some v => list_eqb (map vclass vs') v | None => true end
       && match ob with Some b => obs_eqb (observe tbl naccts p') b | None => true end
-      && check_steps c tbl naccts p' r
+      && check_steps_d c tbl naccts p' dirty' r
   end.
+Definition check_steps (c : cfg) (tbl : list tx) (naccts : N) (p : pool) (h : list cstep) : bool :=
+  check_steps_d c tbl naccts p [] h.
 
 Definition pcase_ok (cs : pcase) : bool :=
   let '(_, c, price_limit, naccts, st, tbl, alts) := cs in
